@@ -37,6 +37,12 @@ pub struct OracleState {
 	pub durable_cache: BTreeMap<(usize, usize), ((u64, usize), (u64, u64, u64))>,
 	/// (payment hash, receiving node) -> (amount, cltv) of every update_add_htlc delivered
 	pub adds_delivered: BTreeMap<([u8; 32], usize), Vec<(u64, u32)>>,
+	/// C07-5: (node, sorted inputs) -> (absolute fee, feerate per kw, txid) of the last broadcast with
+	/// exactly these inputs; cleared for a node when it restarts and for everyone on a reorg
+	pub last_fee: BTreeMap<(usize, Vec<bitcoin::OutPoint>), (u64, u64, bitcoin::Txid)>,
+	/// (node, chan, message): protocol errors about a channel the emitter no longer has, judged
+	/// once the emitter's ChannelClosed event has told why
+	pub suspect_errors: Vec<(usize, usize, String)>,
 }
 
 impl World {
@@ -1055,6 +1061,69 @@ impl World {
 				);
 			}
 		}
+		// C07-5 / C06-3: a claim re-issued with the same inputs never pays less than before
+		// C07-1b: a claim of an output that this node's own, already buried transaction spent
+		if let Admit::MissingOrSpent(_) = r {
+			let tip = self.chain.tip_height();
+			let mut hit = None;
+			for i in tx.input.iter() {
+				if let Some((h, stx)) = self.chain.confirmed_spender(&i.previous_output) {
+					let sid = stx.compute_txid();
+					let own = self.nodes[n].broadcaster.first_seen.lock().unwrap().contains_key(&sid);
+					if own && tip + 1 >= h + 6 && sid != txid {
+						hit = Some((i.previous_output, sid, h));
+					}
+				}
+			}
+			self.out.bump("oracle:C07-1 no re-claim of outputs the node already claimed and buried");
+			if let Some((op, sid, h)) = hit {
+				let restarted = self.nodes[n].incarnation > 0;
+				self.violate(
+					"C07",
+					"C07-1 claim of an output the node's own buried transaction already spent",
+					format!(
+						"node {} {} {} spends {} at height {}, but its own {} spent that output at height {}{}",
+						n,
+						kind,
+						txid,
+						op,
+						tip,
+						sid,
+						h,
+						if restarted { " [after a restart; the claim is regenerated when start-up replays a payment preimage into the ChannelMonitor of the closed channel]" } else { "" }
+					),
+				);
+			}
+		}
+		let comparable = matches!(r, Admit::Accepted | Admit::Replaced(_) | Admit::AlreadyKnown | Admit::Policy(_));
+		if let Some(fee) = self.chain.fee_of(tx).filter(|_| comparable) {
+			if fee >= 0 && !tx.input.is_empty() {
+				let fee = fee as u64;
+				let rate = fee * 1000 / tx.weight().to_wu().max(1);
+				let mut key: Vec<bitcoin::OutPoint> = tx.input.iter().map(|i| i.previous_output).collect();
+				key.sort();
+				self.out.bump("oracle:C07-5 re-issued claims never lower their fee");
+				if let Some((old_fee, old_rate, old_txid)) = self.oracle.last_fee.get(&(n, key.clone())).cloned() {
+					if old_txid != txid {
+						self.out.bump("probe:claim_reissued_with_same_inputs");
+						if fee > old_fee {
+							self.out.bump("probe:claim_fee_bumped");
+						}
+						if fee < old_fee && rate < old_rate {
+							self.violate(
+								"C07",
+								"C07-5 claim re-issued with a lower fee",
+								format!(
+									"node {} {} {}: same inputs as {} but fee {} sat ({} sat/kw) after {} sat ({} sat/kw)",
+									n, kind, txid, old_txid, fee, rate, old_fee, old_rate
+								),
+							);
+						}
+					}
+				}
+				self.oracle.last_fee.insert((n, key), (fee, rate, txid));
+			}
+		}
 		match r {
 			Admit::ScriptFail(e) => self.violate(
 				"C07",
@@ -1146,6 +1215,9 @@ impl World {
 	pub fn final_oracles(&mut self) {
 		if self.dead {
 			return;
+		}
+		for (_, _, msg) in std::mem::take(&mut self.oracle.suspect_errors) {
+			self.violate("C01", "C01-3 protocol error in honest operation", msg);
 		}
 		let pays = self.pays.clone();
 		for p in pays.iter() {
